@@ -109,6 +109,20 @@ class C07(Prop):
             cs.append({"kind": "int_rt", "tag": None, "z": z, "rest": "99"})
         for h in ("ff0000", "80000000", "", "00", "0080", "ffff80", "00000000ff", "ff", "7f"):
             cs.append({"kind": "int_raw", "content": h})
+        # every integer whose two's complement octets are drawn from the boundary alphabet, lengths 1-4 (2800 values):
+        # sign octets, carries and "lowest set bit" tricks all live in these patterns
+        import itertools
+
+        alpha = (0x00, 0x01, 0x7F, 0x80, 0x81, 0xFE, 0xFF)
+        seen = set()
+        for k in (1, 2, 3, 4):
+            for octs in itertools.product(alpha, repeat=k):
+                z = int.from_bytes(bytes(octs), "big", signed=True)
+                if z not in seen:
+                    seen.add(z)
+                    cs.append({"kind": "int_rt", "tag": None, "z": z, "rest": "99"})
+        for z in (-0x808000, -0x80000080, -0x8000000080, 0x8000000080, -0x80FF80, -(0x80 << 64) - 0x80):
+            cs.append({"kind": "int_rt", "tag": None, "z": z, "rest": ""})
         cs.append({"kind": "peek", "data": "5f8100820100"})
         cs.append({"kind": "peek", "data": "1f25" + "00"})
         cs.append({"kind": "peek", "data": "3080"})
